@@ -1027,6 +1027,110 @@ def builtin (fo : FOps) (md : Mode) (name : String) (args : List Value) : Res :=
 case mapping, float parsing, range sizes, sort's comparator) -/
 def unmodelledBuiltins : List String := ["range"]
 
+/-! ### pattern expressions (`.pattern(name: events => …)`) -/
+
+
+/-- `filter_map` of the numbers of an array, then `fold(INFINITY, f64::min)` -/
+def fminAll (fs : List F) : F := fs.foldl F.min (.inf false)
+def fmaxAll (fs : List F) : F := fs.foldl F.max (.inf true)
+
+/-- the array aggregates shared by the function form `avg(xs)` and the method form `xs.avg()` -/
+def patAgg (fo : FOps) (name : String) (xs : List Value) : Option Res :=
+  let ns := numsOf xs
+  match name with
+  | "sum" => some (.val (.float (fsum fo ns)))
+  | "avg" =>
+    some (if ns.isEmpty then .val (.float F.zero)
+          else .val (.float (fo.div (fsum fo ns) (F.ofNat ns.length))))
+  | "min" => some (if (fminAll ns).isInf then .none else .val (.float (fminAll ns)))
+  | "max" => some (if (fmaxAll ns).isInf then .none else .val (.float (fmaxAll ns)))
+  | "first" => some (Res.ofOption xs.head?)
+  | "last" => some (Res.ofOption xs.getLast?)
+  | _ => none
+
+def pairs : List Value → List Value
+  | a :: b :: rest => .arr [a, b] :: pairs (b :: rest)
+  | _ => []
+
+def flattenVals (xs : List Value) : List Value :=
+  xs.flatMap fun v => match v with | .arr ys => ys | v => [v]
+
+def resVal? : Res → Option Value
+  | .val v => some v
+  | _ => none
+
+def paramOr (ps : List String) : String := ps.headD "x"
+
+mutual
+/-- `eval_pattern_expr` (`.pattern` lambdas); `vars` = `pattern_vars`, newest binding first -/
+def evalPat (fo : FOps) (md : Mode) : List (String × Value) → Expr → Res
+  | vars, .block names vals res => evalPat fo md (evalPatLets fo md vars names vals) res
+  | vars, .lambda _ body => evalPat fo md vars body
+  | vars, .ident x => Res.ofOption (vars.lookup x)
+  | _, .int n => .val (.int n)
+  | _, .float f => .val (.float f)
+  | _, .bool b => .val (.bool b)
+  | _, .str s => .val (.str s)
+  | vars, .bin op l r =>
+    (evalPat fo md vars l).bind fun lv => (evalPat fo md vars r).bind fun rv => patternBinop md op lv rv
+  | vars, .member recv m =>
+    (evalPat fo md vars recv).bind fun rv =>
+      match rv with
+      | .map kvs => Res.ofOption (kvs.lookup m)
+      | _ => .none
+  | vars, .call (.member recv m) args =>
+    (evalPat fo md vars recv).bind fun rv =>
+      match rv with
+      | .arr xs =>
+        match m, args with
+        | "filter", .lambda ps body :: _ =>
+          .val (.arr (xs.filter fun item =>
+            match evalPat fo md ((paramOr ps, item) :: vars) body with
+            | .val (.bool true) => true
+            | _ => false))
+        | "map", .lambda ps body :: _ =>
+          .val (.arr (xs.filterMap fun item =>
+            match ps with
+            | p0 :: p1 :: _ =>
+              (match item with
+               | .arr (a :: b :: _) => resVal? (evalPat fo md ((p1, b) :: (p0, a) :: vars) body)
+               | _ => Option.none)
+            | _ => resVal? (evalPat fo md ((paramOr ps, item) :: vars) body)))
+        | "flatten", _ => .val (.arr (flattenVals xs))
+        | "len", _ => .val (.int (Int64.ofNat xs.length))
+        | "count", _ => .val (.int (Int64.ofNat xs.length))
+        | "sliding_pairs", _ => .val (.arr (pairs xs))
+        | name, _ =>
+          match patAgg fo name xs with
+          | some r => r
+          | Option.none => .none
+      | _ => .none
+  | vars, .call (.ident f) (a :: _) =>
+    match evalPat fo md vars a with
+    | .val (.arr xs) =>
+      if f == "len" then .val (.int (Int64.ofNat xs.length))
+      else if f == "variance" then
+        let ns := numsOf xs
+        if ns.isEmpty then .val (.float F.zero)
+        else
+          let mean := fo.div (fsum fo ns) (F.ofNat ns.length)
+          .val (.float (fo.div (fsum fo (ns.map fun x => fo.powi (fo.sub x mean) 2)) (F.ofNat ns.length)))
+      else
+        match patAgg fo f xs with
+        | some r => r
+        | Option.none => .none
+    | _ => .none
+  | _, _ => .none
+/-- the `let` bindings of a block expression, in order; a binding without a value is skipped -/
+def evalPatLets (fo : FOps) (md : Mode) : List (String × Value) → List String → List Expr → List (String × Value)
+  | vars, n :: ns, v :: vs =>
+    match evalPat fo md vars v with
+    | .val x => evalPatLets fo md ((n, x) :: vars) ns vs
+    | _ => evalPatLets fo md vars ns vs
+  | vars, _, _ => vars
+end
+
+
 /-! ### the evaluator -/
 
 /-- `Expr::Member` (only `alias.field` with an identifier on the left is resolved) -/
